@@ -1,6 +1,7 @@
 import DracoProofs.KdTreeSize
 import DracoProofs.KdTreeValid
 import DracoProofs.KdEncTuples
+import DracoProofs.KdSpecDecoded
 import Generated.FastDivTab
 /-
   C01 for the kd-tree point cloud coder — staging file of the kd-tree slice, to be merged into
@@ -259,5 +260,76 @@ example : ∃ bs g' st, KdEnc.encodeGeometryKd sampleKdChoices sampleKdPC none s
 /-- … and what is expected back is the input with the point map resolved -/
 example : (KdEnc.expectedKd sampleKdPC sampleKdOpts).atts.map (·.values) =
     [[0, 128, 7, 0, 255, 255, 5, 0, 0, 128, 7, 0], [9, 200, 9]] := by decide +kernel
+
+/-! ### the executable specification RoundTripOK accepts the kd-tree round trip -/
+
+open KdEnc in
+/-- **RoundTripOK accepts `expectedKd g opts` up to the order of the points** (kd-tree class):
+    `Spec.check .kdTree` — the very function the checks evaluate on the implementation's outputs —
+    answers "ok" on the input `g`, ANY geometry `g'` that is `SameUpToPointOrder` to `expectedKd g opts`
+    (what `pointcloud_kd_roundtrip` proves of the decoder's result) and any geometry `gs` whose
+    attributes carry the transform data the stream declares (`DeclaresKd`: what the decode with
+    every transform skipped returns, `pointcloud_kd_allskipped_declares`), with the quantization
+    request of the options (`quantReqKd`: every float attribute with its `quantization_bits`).
+    Hypothesis beyond the domain of the round trip: distinct unique ids (matching is by id; the check
+    answers `skip` otherwise). -/
+theorem spec_accepts_expected_kd (ch : Choices) (g : Geometry) (md : Option GeometryMetadata)
+    (opts : SeqEnc.EncOpts) (bs : Bytes) (hok : KdEnc.GeomOK g opts)
+    (hnd : (g.atts.map (·.uniqueId)).Nodup)
+    (henc : encodeGeometryKd ch g md opts = some bs) (g' gs : Geometry)
+    (hsame : SameUpToPointOrder g' (expectedKd g opts)) (hdecl : DeclaresKd g opts gs) :
+    Spec.check .kdTree (quantReqKd g opts) g g' gs = "ok" := by
+  obtain ⟨encs, hf⟩ := encodeGeometryKd_full ch g md opts bs henc
+  exact (check_ok_iff _ _ _ _ _).2 (checkCore_kd g opts g' gs hok hnd
+    (encodeAttribute_of_full ch g md opts bs encs hf) hsame hdecl)
+
+open KdEnc in
+/-- the decode of the encoder's stream with every attribute transform skipped succeeds, leaves
+    exactly `extra` unread and declares, attribute by attribute, the transform data of
+    `declaredTransformKd`: the quantization parameters of `quantizationParams` for float attributes,
+    nothing for integer attributes -/
+theorem pointcloud_kd_allskipped_declares (ch : Choices) (hpart : Kd.PartSpec ch.part) (g : Geometry)
+    (md : Option GeometryMetadata) (opts : SeqEnc.EncOpts) (bs : Bytes)
+    (hok : KdEnc.GeomOK g opts) (hmd : ∀ m, md = some m → m.WF')
+    (henc : encodeGeometryKd ch g md opts = some bs) (extra : Bytes) :
+    ∃ gs st, decodeGeometry { skip := SeqEnc.allTypes } { rest := bs ++ extra } = (some ⟨gs, md⟩, st) ∧
+      st.rest = extra ∧ DeclaresKd g opts gs :=
+  kd_allskipped_declares ch hpart g md opts bs hok hmd henc extra
+
+open KdEnc in
+/-- **The corollary the checks rely on**: for a stream produced by the kd-tree encoder model the
+    ordinary decode and the all-transforms-skipped decode (both of the stream followed by arbitrary
+    bytes) exist, and the executable specification RoundTripOK accepts them. -/
+theorem kd_roundtrip_ok (ch : Choices) (hpart : Kd.PartSpec ch.part) (g : Geometry)
+    (md : Option GeometryMetadata) (opts : SeqEnc.EncOpts) (bs : Bytes)
+    (hok : KdEnc.GeomOK g opts) (hmd : ∀ m, md = some m → m.WF')
+    (hnd : (g.atts.map (·.uniqueId)).Nodup)
+    (henc : encodeGeometryKd ch g md opts = some bs) (extra : Bytes) :
+    ∃ r rs st st',
+      decodeGeometry {} { rest := bs ++ extra } = (some r, st) ∧
+      decodeGeometry { skip := SeqEnc.allTypes } { rest := bs ++ extra } = (some rs, st') ∧
+      Spec.check .kdTree (quantReqKd g opts) g r.geometry rs.geometry = "ok" := by
+  obtain ⟨g', st, h1, _, h3⟩ := kd_roundtrip ch hpart g md opts bs hok hmd henc extra
+  obtain ⟨gs, st', k1, _, k3⟩ := kd_allskipped_declares ch hpart g md opts bs hok hmd henc extra
+  exact ⟨_, _, st, st', h1, k1, spec_accepts_expected_kd ch g md opts bs hok hnd henc g' gs h3 k3⟩
+
+/-- non-vacuity on `sampleKdPC` -/
+example : ∃ bs r rs st st', KdEnc.encodeGeometryKd sampleKdChoices sampleKdPC none sampleKdOpts = some bs ∧
+    decodeGeometry {} { rest := bs ++ [1] } = (some r, st) ∧
+    decodeGeometry { skip := SeqEnc.allTypes } { rest := bs ++ [1] } = (some rs, st') ∧
+    Spec.check .kdTree (KdEnc.quantReqKd sampleKdPC sampleKdOpts) sampleKdPC r.geometry rs.geometry = "ok" := by
+  obtain ⟨bs, hbs⟩ := sampleKdPC_encodes
+  obtain ⟨r, rs, st, st', h1, h2, h3⟩ := kd_roundtrip_ok sampleKdChoices Kd.partSpec_std sampleKdPC none
+    sampleKdOpts bs sampleKdPC_ok (fun m h => by cases h) (by decide) hbs [1]
+  exact ⟨bs, r, rs, st, st', hbs, h1, h2, h3⟩
+
+/-- … and the specification is not trivially "ok": it rejects a decode that lost a point -/
+example : Spec.check .kdTree [] sampleKdPC
+    { KdEnc.expectedKd sampleKdPC sampleKdOpts with numPoints := 2 }
+    (KdEnc.expectedKd sampleKdPC sampleKdOpts) ≠ "ok" := by
+  intro h
+  have := (check_ok_iff _ _ _ _ _).1 h
+  revert this
+  decide +kernel
 
 end Draco.C01Kd
